@@ -33,12 +33,12 @@ class BracketDomain(Domain):
         if isinstance(fval, Opaque) and fval.tag.startswith("bound:"):
             name = fval.tag[6:]
         if name == "self.get":
-            s2 = state.set("got", 1)
+            s2 = state.set("#got", 1)
             return [("ok", POOLED, s2)] + self.call_raises(node, state)
         if name in ("self.release", "self.destroy"):
             if not args or args[0] != POOLED:
                 self.bad_args.append(node)
-            s2 = state.set("rel", min(2, state.get("rel", 0) + 1)).set("how", name.split(".")[1])
+            s2 = state.set("#rel", min(2, state.get("#rel", 0) + 1)).set("#how", name.split(".")[1])
             # summarised as atomic for slot accounting: the object leaves _used_objs before anything else can fail
             # (C08.R3 checks that ordering inside release/destroy)
             return [("ok", NONE, s2)]
@@ -59,13 +59,13 @@ def bracket_exits(prog):
     recs = []
     for dof in (True, False):
         dom = BracketDomain(prog, fn)
-        st = Env({"rel": 0, "how": None, "got": 0, "destroy_on_fail": Truthiness(dof)})
+        st = Env({"#rel": 0, "#how": None, "#got": 0, "destroy_on_fail": Truthiness(dof)})
         outs = Interp(dom, fn.node, prog).run(st)
         for s, exc, t in outs.of("exc"):
-            recs.append(dict(kind="exc", colour=exc.colour, exc=exc, rel=s.get("rel"), how=s.get("how"), got=s.get("got"), dof=dof, trace=t))
+            recs.append(dict(kind="exc", colour=exc.colour, exc=exc, rel=s.get("#rel"), how=s.get("#how"), got=s.get("#got"), dof=dof, trace=t))
         for s, v, t in outs.of("ret"):
             thrown = [x for x in t if isinstance(x, str) and x.startswith("except@")]
-            recs.append(dict(kind="ret", colour=None, exc=None, rel=s.get("rel"), how=s.get("how"), got=s.get("got"), dof=dof, trace=t, swallowed=bool(thrown)))
+            recs.append(dict(kind="ret", colour=None, exc=None, rel=s.get("#rel"), how=s.get("#how"), got=s.get("#got"), dof=dof, trace=t, swallowed=bool(thrown)))
         if dom.bad_args:
             recs.append(dict(kind="badarg", node=dom.bad_args[0], dof=dof, rel=None, how=None, got=1, colour=None, trace=()))
     return fn, recs
@@ -134,7 +134,7 @@ class LockDomain(Domain):
     methods of the pool are inlined, so a helper that is only called with the lock held is analysed in that context."""
 
     async_enabled = False
-    global_keys = ("lock", "epoch", "touched", "closed", "free_empty", "fresh", "silent")
+    global_keys = ("#lock", "#epoch", "#touched", "#closed", "#free_empty", "#fresh", "silent")
 
     def __init__(self, prog, fn, fields, lock, silent=None):
         super().__init__(prog, fn)
@@ -147,7 +147,7 @@ class LockDomain(Domain):
         self.silent = silent
 
     def init_state(self, fn_node):
-        st = {"lock": 0, "epoch": 0, "touched": (), "closed": ()}
+        st = {"#lock": 0, "#epoch": 0, "#touched": (), "#closed": ()}
         for p in fn_node.args.args:
             if p.arg == "obj":
                 st["obj"] = Obj("param")
@@ -170,17 +170,17 @@ class LockDomain(Domain):
     # ---- guarded field access -------------------------------------------------------------
     def _touch(self, field, kind, node, state):
         self.accesses.append((field, kind, node, state))
-        if not state.get("lock"):
+        if not state.get("#lock"):
             self.unlocked.append((field, kind, node))
-        ep = state.get("epoch")
-        touched = state.get("touched")
+        ep = state.get("#epoch")
+        touched = state.get("#touched")
         # R2: a write in a later hold than the first guarded access must be preceded by a guarded read in its own hold
         if kind == "write":
             earlier = [t for t in touched if t[0] < ep]
             own_read = [t for t in touched if t[0] == ep and t[2] in ("read", "rw")]
-            if earlier and not own_read and state.get("lock"):
+            if earlier and not own_read and state.get("#lock"):
                 self.problems.append(("check-then-act-split:%s" % field, "`%s` writes %s in a lock hold that did not re-read any guarded field, although an earlier hold on the same path inspected %s: the check and the act are not atomic" % (node_src(node), field, "/".join(sorted({t[1] for t in earlier}))), node))
-        return state.set("touched", touched + ((ep, field, kind),) if (ep, field, kind) not in touched else touched)
+        return state.set("#touched", touched + ((ep, field, kind),) if (ep, field, kind) not in touched else touched)
 
     def attr_load(self, objval, node, state):
         if is_self_attr(node) and node.attr in self.fields:
@@ -197,7 +197,7 @@ class LockDomain(Domain):
 
     def attr_store(self, objval, node, value, state):
         if isinstance(node.value, ast.Name) and node.attr == "_last_used":
-            return state.set(("stamp", node.value.id), "idle_clock" if value == lin("now") else ("now-var" if value == Opaque("nowvar") else "other")).set(("stamp_epoch", node.value.id), state.get("epoch") if state.get("lock") else -1)
+            return state.set(("stamp", node.value.id), "idle_clock" if value == lin("now") else ("now-var" if value == Opaque("nowvar") else "other")).set(("stamp_epoch", node.value.id), state.get("#epoch") if state.get("#lock") else -1)
         if is_self_attr(node) and node.attr in self.fields:
             self.problems.append(("field-rebound:%s" % node.attr, "guarded field self.%s is rebound" % node.attr, node))
         return super().attr_store(objval, node, value, state)
@@ -240,14 +240,14 @@ class LockDomain(Domain):
 
     def with_enter(self, item, value, state):
         if is_self_attr(item.context_expr, self.lock):
-            if state.get("lock"):
+            if state.get("#lock"):
                 self.problems.append(("lock-reacquired", "the non-reentrant lock is acquired while already held", item.context_expr))
-            return [("ok", TOP, state.set("lock", 1).set("epoch", state.get("epoch") + 1))]
+            return [("ok", TOP, state.set("#lock", 1).set("#epoch", state.get("#epoch") + 1))]
         return super().with_enter(item, value, state)
 
     def with_exit(self, item, value, kind, state):
         if is_self_attr(item.context_expr, self.lock):
-            return [("ok", state.set("lock", 0), False)]
+            return [("ok", state.set("#lock", 0), False)]
         return super().with_exit(item, value, kind, state)
 
     def for_next(self, node, itval, state):
@@ -280,7 +280,7 @@ class LockDomain(Domain):
 
     def call(self, node, fval, args, kwargs, state):
         name = call_name(node)
-        if state.get("lock"):
+        if state.get("#lock"):
             self.calls_held.append((name, node))
         # operations on a guarded deque:  self._x.op(...)
         if isinstance(fval, Opaque) and fval.tag.startswith("meth:"):
@@ -292,14 +292,14 @@ class LockDomain(Domain):
                 # remove(obj): success => the caller owns obj (removed by this thread in this hold)
                 st_ok = st
                 if node.args and isinstance(node.args[0], ast.Name):
-                    st_ok = st.set(("removed", node.args[0].id), (field, st.get("epoch")))
+                    st_ok = st.set(("removed", node.args[0].id), (field, st.get("#epoch")))
                 return [("ok", NONE, st_ok), ("exc", Exc(ORD, "ValueError", node.lineno), st)]
             if op in WRITE_OPS:
                 st = self._touch(field, "write", node, state)
                 if op in ("append", "appendleft") and node.args and isinstance(node.args[0], ast.Name):
-                    st = st.set(("in", field, node.args[0].id), st.get("epoch"))
+                    st = st.set(("in", field, node.args[0].id), st.get("#epoch"))
                 if op == "clear":
-                    st = st.set(("cleared", field), st.get("epoch"))
+                    st = st.set(("cleared", field), st.get("#epoch"))
                 return [("ok", NONE, st)]
             st = self._touch(field, "read", node, state)
             return [("ok", TOP, st)]
@@ -310,14 +310,14 @@ class LockDomain(Domain):
                 st = self._touch(a.tag[6:], "read", node, st)
                 if isinstance(node.func, ast.Attribute) and node.func.attr == "extend" and isinstance(node.func.value, ast.Name):
                     lst = node.func.value.id
-                    st = st.set(("ext", lst), tuple(sorted(set(st.get(("ext", lst), ())) | {(a.tag[6:], st.get("epoch"))})))
+                    st = st.set(("ext", lst), tuple(sorted(set(st.get(("ext", lst), ())) | {(a.tag[6:], st.get("#epoch"))})))
                     if isinstance(st.get(lst, None), Snapshot):
-                        st = st.set(lst, Snapshot(tuple(sorted(set(st.get(lst).fields) | {(a.tag[6:], st.get("epoch") if st.get("lock") else -1)}))))
+                        st = st.set(lst, Snapshot(tuple(sorted(set(st.get(lst).fields) | {(a.tag[6:], st.get("#epoch") if st.get("#lock") else -1)}))))
         if isinstance(node.func, ast.Attribute) and node.func.attr == "append" and isinstance(node.func.value, ast.Name) and isinstance(st.get(node.func.value.id, None), Snapshot) and args and isinstance(args[0], Obj):
             cur = st.get(node.func.value.id)
             return [("ok", NONE, st.set(node.func.value.id, Snapshot(cur.fields, cur.objs + ((args[0],) if args[0] not in cur.objs else ()))))]
         if name in ("list", "tuple") and args and isinstance(args[0], Opaque) and args[0].tag.startswith("field:"):
-            return [("ok", Snapshot(((args[0].tag[6:], st.get("epoch") if st.get("lock") else -1),)), st)]
+            return [("ok", Snapshot(((args[0].tag[6:], st.get("#epoch") if st.get("#lock") else -1),)), st)]
         if name.startswith("self._") and name.count(".") == 1 and name[5:] not in ("_obj_creator", "_after_remove", "_idle_clock") and self.prog is not None:
             m = self.prog.cls("ObjectPool").methods.get(name[5:])
             if m is not None:
@@ -325,18 +325,18 @@ class LockDomain(Domain):
                 if res is not None:
                     return res
         if name == "self._obj_creator":
-            if state.get("free_empty") is not True:
+            if state.get("#free_empty") is not True:
                 self.problems.append(("create-before-reuse", "a new object is created on a path where the free list was not found empty", node))
             return [("ok", Obj("created"), st), ("exc", Exc(ORD, None, node.lineno), st)]
         if name == "self._idle_clock":
             return [("ok", lin("now"), st)]
         if name == "self._after_remove":
             self._after_remove(node, args, st)
-            cl = st.get("closed")
+            cl = st.get("#closed")
             nm = node.args[0].id if node.args and isinstance(node.args[0], ast.Name) else "?"
             if nm in cl:
                 self.problems.append(("closed-twice", "_after_remove can be called twice for `%s` on one path" % nm, node))
-            st = st.set("closed", cl + (nm,))
+            st = st.set("#closed", cl + (nm,))
             return [("ok", NONE, st), ("exc", Exc(ORD, None, node.lineno), st)]
         if name in ("len", "tuple", "list", "bool", "isinstance"):
             return [("ok", TOP, st)]
@@ -389,7 +389,7 @@ class LockDomain(Domain):
         for it in items:
             if isinstance(it, Opaque) and it.tag.startswith("field:"):
                 self._touch(it.tag[6:], "read", node, state)
-                fields.append((it.tag[6:], state.get("epoch") if state.get("lock") else -1))
+                fields.append((it.tag[6:], state.get("#epoch") if state.get("#lock") else -1))
             elif isinstance(it, Snapshot):
                 fields += list(it.fields)
             else:
@@ -407,9 +407,9 @@ class LockDomain(Domain):
 
     def name_store(self, name, value, state, node=None):
         # re-binding a variable: facts about the object it named no longer apply to it
-        cl = state.get("closed", ())
+        cl = state.get("#closed", ())
         if name in cl:
-            state = state.set("closed", tuple(x for x in cl if x != name))
+            state = state.set("#closed", tuple(x for x in cl if x != name))
         for k in [k for k in state.d if isinstance(k, tuple) and len(k) >= 2 and k[-1] == name and k[0] in ("removed", "stamp", "stamp_epoch", "in")]:
             state = state.drop(k)
         if value is TOP and node is not None:
@@ -424,7 +424,7 @@ class LockDomain(Domain):
         if isinstance(value, Opaque) and value.tag.startswith("field:"):
             st = self._touch(value.tag[6:], "read", expr, state)
             if value.tag[6:].endswith("free_objs") or "free" in value.tag:
-                st = st.set("free_empty", not branch)
+                st = st.set("#free_empty", not branch)
             return st
         return super().assume(expr, value, branch, state)
 
